@@ -112,6 +112,8 @@ func init() {
 			out = append(out, Instance{Scenario: "c12_afterrebalance", Params: mustJSON(AfterRebParams{OldServer: true}), Bound: 1, Shards: 8, Note: "server below 5.5.0 (serial close): the end of the last vBucket against the tail of Close(), all single deviations"})
 			out = append(out, Instance{Scenario: "c12_afterrebalance", Params: mustJSON(AfterRebParams{OldServer: true, CloseFault: true}), Bound: 0, Shards: 8, Note: "serial close with a failing close-stream request: ends in the next session are still processed"})
 			out = append(out, Instance{Scenario: "c12_afterrebalance", Params: mustJSON(struct{}{}), Bound: 1, Shards: 8, Note: "the stop rule in the sessions after 1..2 real rebalances"})
+			out = append(out, Instance{Scenario: "c07_gate", Params: mustJSON(MitigationParams{Replicas: 1, TransientEnd: true, FailoverAtEnd: true}), Bound: 0, Shards: 8, Note: "rollback mitigation on (the default): after a transient end with a fail-over the re-opened vBucket keeps being streamed - an event covered by what the copies reported is delivered although no copy reports anything new"})
+			out = append(out, Instance{Scenario: "c07_gate", Params: mustJSON(MitigationParams{Replicas: 1, TransientEnd: true}), Bound: 0, Shards: 8})
 			out = append(out, Instance{Scenario: "c12_finite_rebalance", Params: mustJSON(struct{}{}), Bound: 0, Note: "a finite run across a rebalance with a slow application hook: the re-opened session's vBuckets end while the hook runs - the client still stops on its own"})
 			out = append(out, Instance{Scenario: "c12_duringopen", Params: mustJSON(struct{}{}), Bound: b - 1, Shards: 4, Note: "a stream ends while Open() still waits for another vBucket (start-up and re-open after a rebalance)"})
 			for f := 1; f <= 5; f++ {
